@@ -464,7 +464,16 @@ func (root *Root) replaceArgVars(vars map[string]interface{}, v interface{}, at 
 			}
 		}
 	case map[string]interface{}:
-		if it, _ := BaseType(at).(*Input); it != nil {
+		it, _ := at.(*Input)
+		if nn, _ := at.(*NonNull); nn != nil {
+			it, _ = nn.Base.(*Input)
+		}
+		if it == nil && at != nil {
+			// An object literal for a type that is not an input object.
+			ea = append(ea, resWarnp(nil, "%s", newCoerceErr(val, at.Name())))
+			val = nil
+		}
+		if it != nil {
 			// Build a new map so the literal in the parsed executable is not modified.
 			cp := make(map[string]interface{}, len(tv))
 			for k, v := range tv {
@@ -488,6 +497,11 @@ func (root *Root) replaceArgVars(vars map[string]interface{}, v interface{}, at 
 		}
 		if lt != nil {
 			mt = lt.Base
+		} else if at != nil {
+			// A list literal for a type that is not a list.
+			ea = append(ea, resWarnp(nil, "%s", newCoerceErr(val, at.Name())))
+			val = nil
+			break
 		}
 		// Build a new list so the literal in the parsed executable is not modified.
 		cp := make([]interface{}, len(tv))
@@ -497,11 +511,18 @@ func (root *Root) replaceArgVars(vars map[string]interface{}, v interface{}, at 
 		}
 		val = cp
 	case Symbol:
-		bt := BaseType(at)
-		if et, _ := bt.(*Enum); et != nil {
+		et, _ := at.(*Enum)
+		if nn, _ := at.(*NonNull); nn != nil {
+			et, _ = nn.Base.(*Enum)
+		}
+		if et != nil {
 			if _, has := et.values.dict[string(tv)]; !has {
 				ea = append(ea, resWarnp(nil, "%s is not a valid enum value in %s", tv, et.N))
 			}
+		} else if at != nil {
+			// An enum literal for a type that is not an enum.
+			ea = append(ea, resWarnp(nil, "%s", newCoerceErr(val, at.Name())))
+			val = nil
 		}
 	default:
 		if ic, _ := at.(InCoercer); ic != nil { // validated in SDL validation
